@@ -599,9 +599,17 @@ Theorem spec_inValidRegion_ok ig a0 a1 a2 b :
   inValidRegion_meaning ig a0 a1 a2 b (spec_inValidRegion ig a0 a1 a2 b).
 Proof.
   unfold inValidRegion_meaning, spec_inValidRegion. cbv zeta.
-  destruct (Qltb 0 (cross a0 a1 a2)) eqn:E1; qb2p; destruct ig;
-    rewrite ?orb_true_iff, ?andb_true_iff, ?Qleb_spec;
-    (split; [|split; [|split]]); intros; try discriminate; try lra; try tauto; try reflexivity.
+  destruct (Qltb 0 (cross a0 a1 a2)) eqn:E1; qb2p.
+  - split; [|split; [|split]].
+    + intros _ ->. rewrite orb_true_iff, !Qleb_spec. tauto.
+    + intros _ ->. rewrite orb_true_iff, !andb_true_iff, !Qleb_spec. tauto.
+    + intros H. exfalso. lra.
+    + intros H. exfalso. lra.
+  - split; [|split; [|split]].
+    + intros H. exfalso. lra.
+    + intros H. exfalso. lra.
+    + intros _ ->. rewrite andb_true_iff, !Qleb_spec. tauto.
+    + intros _ ->. reflexivity.
 Qed.
 
 (* convex corner, regions not ignored: valid exactly when b is not strictly inside the cone at a1 *)
